@@ -106,7 +106,40 @@ def gen_stmts(c, n, depth, in_loop=False):
             lit = ("nil",) if left_nil else (I(g.int(0, 9)) if base == "int" else S("lit"))
             c.seen.add(("or", "nil" if left_nil else "present"))
             g.label("or-with-literal-left:" + ("nil" if left_nil else "present"))
-            fk = g.choice(["call", "var", "nested-or"])
+            fk = g.choice(["call", "var", "nested-or"] + (["optional", "optional"] if left_nil else []))
+            if fk == "optional":
+                # the fallback of a nil literal may itself be optional (variable, call result, list element, field): the whole `or`
+                # is then an optional whose value is the fallback's - used under `get`, `== nil`, a second `or`, a typed declaration
+                oe, s2 = opt_expr(c, base)
+                if base == "int" and g.chance(25):
+                    pres = g.chance(50)
+                    fo = "fq%d" % c.key()
+                    out.append(("decl", fo, None, ("new", "KO", [I(g.int(0, 9)) if pres else ("nil",)]), ()))
+                    oe, s2 = ("field", V(fo), "o"), ("present" if pres else "nil")
+                e = ("or", ("nil",), oe)
+                use = g.choice(["print", "isnil", "get", "get", "or-again", "typed-decl", "get-decl"])
+                g.label("or-with-nil-left-and-optional-fallback:%s:%s" % (use, s2))
+                c.seen.add(("or-optional-fallback", s2))
+                dn = "oq%d" % c.key()
+                if use == "print":
+                    out.append(("print", e))
+                elif use == "isnil":
+                    out.append(("print", ("bin", g.choice(["==", "!="]), e, ("nil",))))
+                elif use == "or-again":
+                    out.append(("print", ("or", e, fallback(c, base))))
+                elif use == "typed-decl":
+                    out += [("decl", dn, ("opt", base), e, ()), ("print", ("bin", "==", V(dn), ("nil",))), ("print", ("or", V(dn), fallback(c, base)))]
+                elif s2 == "present" or g.chance(30 if s2 == "nil" else 60):
+                    # `get` directly on the `or`: stops the program exactly when the fallback is nil
+                    if s2 != "present":
+                        c.has_get_fail = True
+                    if use == "get":
+                        out.append(("print", ("get", e)))
+                    else:
+                        out += [("decl", dn, base, ("get", e), ()), ("print", V(dn)), ("print", ("bin", "==", V(dn), ("nil",)))]
+                else:
+                    out.append(("print", ("bin", "==", e, ("nil",))))
+                continue
             if fk == "call":
                 fb_ = fallback(c, base)
             elif fk == "var":
